@@ -104,7 +104,8 @@ def alg_params(alg, owner):
 
 def alg_ident(alg, owner):
     """AlgorithmIdentifier of the *signature* algorithm (RFC 4055 / 5758 / 8410)."""
-    return Seq([Prim("OID", P(owner, via=["alg_ident_oid"])), alg_params(alg, owner)])
+    # the signature OID: `alg.alg_ident_oid()`, or its body `ObjectIdentifier::from_slice(alg.oid_components)` written out
+    return Seq([Prim("OID", P(owner, via_any=[["alg_ident_oid"], ["ObjectIdentifier::from_slice", ".oid_components"]])), alg_params(alg, owner)])
 
 
 def spki(key):
